@@ -1,0 +1,9 @@
+//go:build verif
+
+package string_helper
+
+// Contracts checked by /verif (vcgo). Comment-only: no executable code.
+
+//@ func StringArrayContains
+//@ ensures result <==> (exists i int :: 0 <= i && i < len(s) && s[i] == searchterm)
+//@ loop 1 invariant forall j int :: 0 <= j && j < #i ==> s[j] != searchterm
